@@ -3,6 +3,7 @@ package kvql
 import (
 	"bytes"
 	"fmt"
+	"slices"
 	"sort"
 	"strings"
 )
@@ -355,6 +356,8 @@ type MultiGetPlan struct {
 func NewMultiGetPlan(s Storage, f *FilterExec, keys []string) Plan {
 	// We should sort keys to ensure order by erase works correctly
 	sort.Strings(keys)
+	// a key listed twice (key in ('a', 'a')) is read once
+	keys = slices.Compact(keys)
 	return &MultiGetPlan{
 		Storage: s,
 		Filter:  f,
